@@ -484,6 +484,47 @@ func c10Random(r *Rng) C10Case {
 	return c
 }
 
+// directed: one document whose operations take deepObject parameters (array, object, array-of-objects and
+// free-form members; with and without additionalProperties), and every hostile index / bracket shape
+// sent to each of them, alone and next to well-formed keys
+func c10Directed() []C10Case {
+	mk := func(name string, ap any) map[string]any {
+		sch := jobj("type", "object", "properties", jobj(
+			"ids", jobj("type", "array", "items", jobj("type", "integer")),
+			"a", jobj("type", "object", "properties", jobj("b", jobj("type", "string"))),
+			"c", jobj("type", "array", "items", jobj()),
+			"v", jobj("type", "array", "items", jobj("type", "object", "properties", jobj("v", jobj("type", "integer"))))))
+		if ap != nil {
+			sch["additionalProperties"] = ap
+		}
+		return jobj("name", name, "in", "query", "style", "deepObject", "explode", true, "schema", sch)
+	}
+	resp := jobj("200", jobj("description", "ok"))
+	doc := jobj("openapi", "3.0.3", "info", jobj("title", "t", "version", "1"), "paths", jobj(
+		"/plain", jobj("get", jobj("parameters", []any{mk("f", nil)}, "responses", resp)),
+		"/closed", jobj("get", jobj("parameters", []any{mk("f", false)}, "responses", resp)),
+		"/open", jobj("get", jobj("parameters", []any{mk("f", jobj("type", "array", "items", jobj("type", "integer")))}, "responses", resp))))
+	shapes := []string{"f[ids][-1]=5", "f[ids][-1]=5&f[ids][0]=1&f[ids][1]=2", "f[ids][0]=1&f[ids][-2]=7", "f[v][-1][v]=1", "f[v][0][v]=1&f[v][-1][v]=2", "f[c][-1]=x", "f[zz][-1]=1&f[zz][0]=2",
+		"f[ids][+1]=5", "f[ids][01]=5&f[ids][1]=6", "f[ids][1e3]=5", "f[ids][0x1]=5", "f[ids][ 1]=5", "f[ids][9223372036854775807]=1", "f[ids][-9223372036854775808]=1",
+		"f[ids][3]=1", "f[ids][12]=1&f[ids][0]=2", "f[ids][]=1", "f[ids][][]=1", "f[ids]=1&f[ids][0]=2", "f[a][b][c]=1", "f[a]=1", "f[a][b]=x&f[a][b][0]=y", "f[v][0]=1", "f[v][0][v][0]=1",
+		"f[=1", "f]=1", "f[]=1", "f[[ids]]=1", "f[ids][0=1", "f[ids]0]=1", "f[ids][0]]=1", "f=1", "f", "f[ids][0]", "f[ids][0]=1&f[ids][0]=2"}
+	var out []C10Case
+	for _, path := range []string{"/plain", "/closed", "/open"} {
+		var reqs []C10Req
+		for _, q := range shapes {
+			reqs = append(reqs, C10Req{Method: "GET", Target: path + "?" + strings.ReplaceAll(q, " ", "%20"), Status: 200, Multi: len(reqs)%2 == 1})
+			if len(reqs) == 12 {
+				out = append(out, C10Case{Doc: doc, Reqs: reqs})
+				reqs = nil
+			}
+		}
+		if len(reqs) > 0 {
+			out = append(out, C10Case{Doc: doc, Reqs: reqs})
+		}
+	}
+	return out
+}
+
 func init() {
 	runners["C10child"] = func(seed uint64, n int, outDir string, replay string) {
 		cases := loadReplayCases[C10Case](replay)
@@ -514,7 +555,7 @@ func init() {
 		if replay != "" {
 			cases = loadReplayCases[C10Case](replay)
 		} else {
-			cases = loadCorpus[C10Case]("C10")
+			cases = append(loadCorpus[C10Case]("C10"), c10Directed()...)
 			r := NewRng(seed)
 			for i := 0; i < n; i++ {
 				cases = append(cases, c10Random(r))
